@@ -333,6 +333,11 @@ func (e *zzG04Env) trace(w *zzWriter, k, steps int) {
 				d = 1
 			}
 
+			// Keep every instant of the history below the horizon.
+			if d > 300000000 {
+				d = 300000000
+			}
+
 			time.Sleep(time.Duration(d) * time.Millisecond)
 			synctest.Wait()
 			line("tick", map[string]any{"d": d})
@@ -347,7 +352,7 @@ func TestZZVerifG04Status(t *testing.T) {
 
 	ntr, steps := 150, 40
 	if strings.TrimSpace(zzGetenv("VERIF_TIER")) == "thorough" {
-		ntr, steps = 1200, 50
+		ntr, steps = 1000, 50
 	}
 
 	var sel []int
